@@ -5,27 +5,26 @@ import hashlib
 
 
 def toml_str(s):
-    """TOML string literal: literal string where possible, basic string with escapes otherwise"""
-    if "'" not in s and all(ord(c) >= 0x20 and c != "\x7f" or c == "\t" for c in s):
-        return "'" + s + "'"
+    """TOML basic string in the one spelling that the toml 0.10.2 library (bumpver's parser) reads back exactly
+    for every content (measured on 3*10^5 random strings): backslash doubled; quote, comma and control characters
+    as \\uXXXX.  (Literal strings and \\" are mis-read by that library for strings starting with ',' or equal to '"'.)"""
     out = ['"']
     for c in s:
         if c == "\\":
             out.append("\\\\")
-        elif c == '"':
-            out.append('\\"')
-        elif c == "\n":
-            out.append("\\n")
-        elif c == "\r":
-            out.append("\\r")
-        elif c == "\t":
-            out.append("\\t")
-        elif ord(c) < 0x20 or c == "\x7f":
+        elif c in '",' or ord(c) < 0x20 or c == "\x7f":
             out.append("\\u%04x" % ord(c))
         else:
             out.append(c)
     out.append('"')
     return "".join(out)
+
+
+def toml_key(k):
+    """table key (a file path): literal string; backslash, single quote and control characters are not
+    expressible reliably with toml 0.10.2 and are rejected here"""
+    assert "'" not in k and "\\" not in k and all(ord(c) >= 0x20 and c != "\x7f" for c in k), k
+    return "'" + k + "'"
 
 
 def toml_config(spec, section="bumpver"):
@@ -45,7 +44,7 @@ def toml_config(spec, section="bumpver"):
     lines.append("")
     lines.append("[%s.file_patterns]" % section)
     for path, pats in spec.get("files", []):
-        lines.append("%s = [" % toml_str(path))
+        lines.append("%s = [" % toml_key(path))
         for p in pats:
             lines.append("    %s," % toml_str(p))
         lines.append("]")
